@@ -191,6 +191,20 @@ def streams(seed, tier):
     for nm in vec:
         for _ in range(n):
             cases.append(stepgen.step_case(rng, nm, allnames, safe))
+    # every vector name with operand stacks EMPTY in every combination (what a missing operand leaves behind)
+    opkeys = ["bool", "int", "float", "bvec", "ivec", "fvec"]
+    for nm in vec:
+        for mask in range(1 << len(opkeys)):
+            st = dict(bool=[True, False], int=[1, 2, 0], float=[fbits(1.0), fbits(0.5)], bvec=[[True], [False, True]], ivec=[[1, 2], [3]], fvec=[[fbits(1.0)], [fbits(2.0), fbits(3.0)]],
+                      code=[Z(1)], name=["n"])
+            for j, k in enumerate(opkeys):
+                if mask >> j & 1:
+                    st[k] = []
+            if mask % 7 == 3:
+                for k in ("bvec", "ivec", "fvec"):
+                    st[k] = st[k][:1]
+            st["exec"] = [I(nm)]
+            cases.append(case_run((mask + len(nm)) % 2, state(**st), 0, 1))
     out.append(Stream("by-name-random", "run", "run.check", cases,
                       "%d vector instruction names x %d random whole states each (vectors of equal / unequal / zero length, offsets and indices near the lengths and extreme, NaN elements, missing operands), both profiles" % (len(vec), n)))
     return out
